@@ -41,5 +41,17 @@ PROPS = {
         "assumptions": ["member ids are distinct (map keys)", "membership = Conn.NodeIds() at the time of the call (see C20)"],
         "explanation": "validity for all draws, surjectivity of the per-partition shuffles onto all tuples of member permutations (independence), aliasing collapse as regression; real getPartitionsNodeIds compared with the model up to renaming on seeded runs",
     },
+    "C02": {
+        "model_targets": ["Store/Check.vo"],
+        "n": {"quick": 240, "thorough": 4000},
+        "facts": ["update_allocates_nil_map", "update_merge_keeps_old", "update_reuses_level", "store_counters_shape", "vertex_bytes_shape", "process_dispatch_shape"],
+        "theorems": ["C02_map", "C02_simple", "C02_counts", "C02_update_nilmeta_refuted", "C02_facts_ok"],
+        "axioms_allowed": [],
+        "trusted": ["protobuf decoding of log entries is not modelled (the harness marshals structured changes; the model receives the structured change)",
+                    "the HNSW graph work inside Insert/Remove is abstracted by the store contract of C02_map (discharged for the simple index here, for the HNSW model in C01)"],
+        "assumptions": ["BytesSize() = data-bytes counter + float64 link estimate; the estimate is checked on the implementation to lie in [0, len*bound(config)] (tested, not proved)",
+                        "item sizes and sums below 2^64 for exactness (C02_counts states the wrap explicitly)"],
+        "explanation": "refinement of the partition machine to a 30-line map spec for all logs (single and batch forms), exact uint64 counters; real partition.process fed with marshalled entries, outcomes/counters/contents compared after every entry",
+    },
 }
 NOT_APPLICABLE = {}
